@@ -23,6 +23,7 @@ class FnExecutor(Executor):
     def __init__(self, *a, **kw):
         super().__init__(*a, **kw)
         self.nonnull = set()
+        self.loop_stack = []
 
     # ------------------------------------------------------------------------------------------
     def block(self, stmts, st):
@@ -468,6 +469,7 @@ class FnExecutor(Executor):
         self._targets(s.target, tnames, set())
         self.havoc_loop(s.body, sh)
         k = fresh('k%d' % ordinal, z3.IntSort())
+        sh_base = sh.copy()
         Ch = Ctx(self, sh, self.entry, self.params, k=k, it=it_sv)
         invh = inv(Ch)
         sh.assume(*Ch.side)
@@ -478,7 +480,12 @@ class FnExecutor(Executor):
         sb.type_facts(x) if not isinstance(x.t, TTuple) else [sb.type_facts(y) for y in x.z]
         outs = []
         for r in self.assign(s.target, x, sb, s):
-            for o in self.block(s.body, r.st):
+            self.loop_stack.append(k)
+            try:
+                body_outs = self.block(s.body, r.st)
+            finally:
+                self.loop_stack.pop()
+            for o in body_outs:
                 if o.kind in ('fall', 'continue'):
                     C2 = Ctx(self, o.st, self.entry, self.params, k=k + 1, it=it_sv)
                     g2 = inv(C2)
@@ -488,7 +495,12 @@ class FnExecutor(Executor):
                 else:
                     outs.append(o)
         # exit
-        se = sh.copy().assume(k == n).note('L%s: loop#%d exit' % (s.lineno, ordinal))
+        # exit: the invariant with k := n (syntactically, so that triggers match)
+        se = sh_base.note('L%s: loop#%d exit' % (s.lineno, ordinal))
+        Ce = Ctx(self, se, self.entry, self.params, k=n, it=it_sv)
+        inve = inv(Ce)
+        se.assume(*Ce.side)
+        se.assume(inve)
         outs.append(Out('fall', se))
         return outs
 
